@@ -242,7 +242,10 @@ void insert_fill()
   with_state<T>([](rv<T> &v, seq<T> const &m) {
     unsigned const pos{shape("pos", m.n)}, cnt{shape("cnt", 3U)};
     ALIASED_VALUE(T, v, m, ext, ref, mval);
+    T const *const data0{v.data()};
+    sz_t const cap0{v.capacity()};
     v.insert(v.begin() + pos, sz_t{cnt}, ref);
+    if (cnt == 0) verif_assert(v.data() == data0 && v.capacity() == cap0, "insert(pos,0,value): early return, no reallocation");
     seq<T> const e{m_insert_fill(m, pos, mval, cnt)};
     if (alias) { CHECK(v, e, "insert(pos,n,value) [value aliases an element]"); }
     else { CHECK(v, e, "insert(pos,n,value)"); }
@@ -258,7 +261,10 @@ void insert_ptr_range()
     T src[3];
     for (unsigned i = 0; i < 3; ++i) src[i] = sym<T>("src");
     T const *const first{src};
+    T const *const data0{v.data()};
+    sz_t const cap0{v.capacity()};
     v.insert(v.begin() + pos, first, first + cnt);
+    if (cnt == 0) verif_assert(v.data() == data0 && v.capacity() == cap0, "insert(pos,first,first): early return, no reallocation");
     seq<T> const e{m_insert(m, pos, src, cnt)};
     CHECK(v, e, "insert(pos,first,last) [pointer range]");
     verif_reach("insert_ptr_range-end");
@@ -317,7 +323,10 @@ void insert_input_range()
     T src[3];
     for (unsigned i = 0; i < 3; ++i) src[i] = sym<T>("src");
     stream<T> st{src, 0U};
+    T const *const data0{v.data()};
+    sz_t const cap0{v.capacity()};
     v.insert(v.begin() + pos, in_it<T>{&st, 0U}, in_it<T>{&st, cnt});
+    if (cnt == 0) verif_assert(v.data() == data0 && v.capacity() == cap0, "insert(pos,first,first) [input iterator]: early return, no reallocation");
     seq<T> const e{m_insert(m, pos, src, cnt)};
     CHECK(v, e, "insert(pos,first,last) [input iterator]");
     verif_assert(st.pos == cnt, "insert(pos,first,last) [input iterator]: consumes exactly the range");
@@ -348,7 +357,9 @@ void erase_range()
     unsigned const first{shape("first", m.n)}, last{shape("last", m.n)};
     verif_assume(first <= last);
     sz_t const cap0{v.capacity()};
+    T const *const data0{v.data()};
     auto const it{v.erase(v.begin() + first, v.begin() + last)};
+    verif_assert(v.data() == data0, "erase(first,last) (also the empty range): storage stays where it is");
     verif_out("it", static_cast<std::uint64_t>(it - v.begin()));
     seq<T> const e{m_erase(m, first, last)};
     // std::vector: "iterator following the last removed element" = begin()+first in the new sequence
@@ -366,7 +377,9 @@ void resize()
     unsigned const cap{static_cast<unsigned>(v.capacity())};
     unsigned const nsz{shape("new_size", cap + 2U)};
     ALIASED_VALUE(T, v, m, ext, ref, mval);
+    T const *const data0{v.data()};
     v.resize(sz_t{nsz}, ref);
+    if (nsz <= cap) verif_assert(v.data() == data0 && v.capacity() == cap, "resize within the capacity (same size, shrinking, growing in place): no reallocation");
     seq<T> e;
     e.n = nsz;
     for (unsigned i = 0; i < nsz; ++i) e.a[i] = i < m.n ? m.a[i] : mval;
